@@ -18,7 +18,7 @@ def _c18_ambiguous(l):
 
 PROPS = {
     "C01": {
-        "translators": ["translator_c01"],
+        "translators": ["translator_c01", "translator_c09"],
         "generators": [("f64", 3000, 60000), ("c01", 4000, 120000)],
         "modules": ["S2.CellID", "S2.Hilbert", "S2.STUV", "S2.F64"],
         "rule": "cell ids: exhaustive levels 0-3 (thorough 0-5) plus structured random cells of every level whose (i,j) is drawn "
@@ -88,7 +88,7 @@ PROPS = {
     ],
     },
     "C09": {
-        "translators": ["translator_c01"],
+        "translators": ["translator_c01", "translator_c09"],
         "generators": [("c09", 3000, 60000)],
         "modules": ["S2.Codec.Prim", "S2.Codec.Points", "S2.Codec.Types", "S2.STUV", "S2.F64"],
         "rule": "values of all nine encodable types built through the public constructors: points/caps/rects with special floats "
@@ -379,6 +379,7 @@ PROPS = {
     "C07": {
         # (generator, quick n, thorough n); the exact O(n*m) oracle costs about 0.3 s per line on average
         "generators": [("c07", 1600, 24000)],
+        "translators": ["translator_c09"],
         "modules": ["S2.Relate", "S2.Nesting", "S2.Pred", "S2.Exact"],
         "rule": "rel: pairs of valid loops — concentric regular polygons (the D1 shape: both sides with multi-cell indexes and edge-free "
                 "interior cells), nearly equal radii, star-shaped random loops at every distance (disjoint / crossing / nested), "
@@ -424,7 +425,7 @@ PROPS = {
                     "IndexWalkAgrees, ExactRelationIsPointSet, PolygonComplementLaws are stated as def : Prop, not proved"],
     },
     "C12": {
-        "translators": ["translator_c19"],
+        "translators": ["translator_c19", "translator_c09"],
         "generators": [("c12", 1500, 20000), ("c06pc", 2000, 40000)],
         "modules": ["S2.CellM", "S2.STUV", "S2.Hilbert", "S2.CellID", "S2.F64", "S2.Exact", "S2.PaddedCellM"],
         "rule": "cells: exhaustive levels 0-2 (thorough 0-4) plus structured random cells of every level (cube corners, face edges, "
